@@ -189,6 +189,7 @@ pub fn factor(n: Uint, alg: Algo, prefs: &Preferences) -> Result<Vec<Uint>, Fact
             }
             nred = q;
             factors.push(p.into());
+            #[cfg(yamaquasi_verif)] vfac::small(p);
             if prefs.verbose(Verbosity::Info) {
                 eprintln!("Found small factor {p}");
             }
@@ -231,6 +232,7 @@ fn factor_impl(
     // elements of multiplicative order 2 modulo n they will fail to resolve
     // prime power factors of n (because Z/p^k Z is cyclic).
     // So prime powers need to be explicitly tested.
+    #[cfg(yamaquasi_verif)] vfac::num("fi_enter", &n, alg);
     if n.is_one() {
         return;
     }
@@ -243,13 +245,16 @@ fn factor_impl(
         }
     };
     if let Some((p, k)) = is_perfect_power {
+        #[cfg(yamaquasi_verif)] vfac::pp(&n, &p, k);
         let mut facs = vec![];
         factor_impl(p, alg, prefs, &mut facs, tpool);
         for _ in 0..k {
             factors.extend_from_slice(&facs[..]);
         }
+        #[cfg(yamaquasi_verif)] vfac::num("fi_ppend", &n, alg);
         return;
     } else if pseudoprime(n) {
+        #[cfg(yamaquasi_verif)] vfac::push(&n, "prime");
         factors.push(n);
         return;
     }
@@ -258,7 +263,9 @@ fn factor_impl(
         Algo::Auto => {
             // For small inputs, Pollard rho is faster than ECM and quadratic sieve.
             if n.bits() < 52 {
+                #[cfg(yamaquasi_verif)] vfac::alg(&n, "auto_rho");
                 if let Some((a_s, b)) = pollard_rho::rho(&n, prefs.verbosity) {
+                    #[cfg(yamaquasi_verif)] vfac::split2(&n, &a_s, &b, "rho");
                     for a in a_s {
                         factor_impl(a, alg, prefs, factors, tpool);
                     }
@@ -272,10 +279,12 @@ fn factor_impl(
             // Only in automatic mode, for large inputs, Pollard P-1 and ECM can be useful.
             if n.bits() > 64 && !prefs.pm1_done.load(Ordering::Relaxed) {
                 let start_pm1 = std::time::Instant::now();
+                #[cfg(yamaquasi_verif)] vfac::alg(&n, "auto_pm1");
                 let pm1_res = pollard_pm1::pm1_quick(&n, prefs.verbosity);
                 // P-1 should be only run once.
                 prefs.pm1_done.store(true, Ordering::Relaxed);
                 if let Some((a_s, b)) = pm1_res {
+                    #[cfg(yamaquasi_verif)] vfac::split2(&n, &a_s, &b, "pm1");
                     if prefs.verbose(Verbosity::Info) {
                         eprintln!(
                             "Pollard P-1 success with factors {a_s:?} in {:.3}s",
@@ -298,12 +307,14 @@ fn factor_impl(
                 }
             }
             // ECM, in its 128-bit variant, is already efficient for 52-bit numbers.
+            #[cfg(yamaquasi_verif)] vfac::alg(&n, "auto_ecm");
             let ecm_res = if matches!(n.bits(), 52..=128) {
                 ecm128::ecm128(n, false, prefs)
             } else {
                 ecm::ecm_auto(n, prefs, tpool)
             };
             if let Some((a, b)) = ecm_res {
+                #[cfg(yamaquasi_verif)] vfac::split(&n, &[a, b], "ecm");
                 factor_impl(a, alg, prefs, factors, tpool);
                 if prefs.verbose(Verbosity::Info) {
                     eprintln!("Recursively factor {b}");
@@ -314,6 +325,7 @@ fn factor_impl(
             // Select fallback algorithm
             // The above Rho and ECM128 steps should not fail.
             // Select ECM128 as the fallback for small integers.
+            #[cfg(yamaquasi_verif)] vfac::alg(&n, "auto_fallback");
             if n.bits() <= 80 {
                 Algo::Ecm128
             } else {
@@ -328,7 +340,9 @@ fn factor_impl(
         Algo::Pm1 => {
             // Pure Pollard P-1
             let start_pm1 = std::time::Instant::now();
+            #[cfg(yamaquasi_verif)] vfac::alg(&n, "pm1");
             if let Some((a_s, b)) = pollard_pm1::pm1_only(&n, prefs.verbosity) {
+                #[cfg(yamaquasi_verif)] vfac::split2(&n, &a_s, &b, "pm1");
                 if prefs.verbose(Verbosity::Info) {
                     eprintln!(
                         "Pollard P-1 success with factors p={a_s:?} in {:.3}s",
@@ -349,11 +363,14 @@ fn factor_impl(
                     start_pm1.elapsed().as_secs_f64()
                 );
             }
+            #[cfg(yamaquasi_verif)] vfac::push(&n, "fail");
             factors.push(n);
             return;
         }
         Algo::Ecm => {
+            #[cfg(yamaquasi_verif)] vfac::alg(&n, "ecm");
             if let Some((a, b)) = ecm::ecm_only(n, prefs, tpool) {
+                #[cfg(yamaquasi_verif)] vfac::split(&n, &[a, b], "ecm");
                 factor_impl(a, alg, prefs, factors, tpool);
                 if prefs.verbose(Verbosity::Info) {
                     eprintln!("Recursively factor {b}");
@@ -364,6 +381,7 @@ fn factor_impl(
             if prefs.verbose(Verbosity::Info) {
                 eprintln!("Factorization is incomplete.");
             }
+            #[cfg(yamaquasi_verif)] vfac::push(&n, "fail");
             factors.push(n);
             return;
         }
@@ -371,7 +389,9 @@ fn factor_impl(
             // "Small" ECM
             // However due to determinism the recursion will go through the
             // same curves, which is not very useful.
+            #[cfg(yamaquasi_verif)] vfac::alg(&n, "ecm128");
             if let Some((a, b)) = ecm128::ecm128(n, true, prefs) {
+                #[cfg(yamaquasi_verif)] vfac::split(&n, &[a, b], "ecm128");
                 factor_impl(a, alg, prefs, factors, tpool);
                 if prefs.verbose(Verbosity::Info) {
                     eprintln!("Recursively factor {b}");
@@ -382,12 +402,15 @@ fn factor_impl(
             if prefs.verbose(Verbosity::Info) {
                 eprintln!("Factorization is incomplete.");
             }
+            #[cfg(yamaquasi_verif)] vfac::push(&n, "fail");
             factors.push(n);
             return;
         }
         Algo::Qs64 => {
+            #[cfg(yamaquasi_verif)] vfac::alg(&n, "qs64");
             assert!(n.bits() <= 64);
             if let Some((a, b)) = qsieve64::qsieve(n.low_u64(), prefs.verbosity) {
+                #[cfg(yamaquasi_verif)] vfac::split(&n, &[a.into(), b.into()], "qs64");
                 // Recurse
                 factor_impl(a.into(), alg, prefs, factors, tpool);
                 factor_impl(b.into(), alg, prefs, factors, tpool);
@@ -395,13 +418,16 @@ fn factor_impl(
                 if prefs.verbose(Verbosity::Info) {
                     eprintln!("qsieve64 failed");
                 }
+                #[cfg(yamaquasi_verif)] vfac::push(&n, "fail");
                 factors.push(n);
             }
             return;
         }
         Algo::Rho => {
+            #[cfg(yamaquasi_verif)] vfac::alg(&n, "rho");
             assert!(n.bits() <= 64);
             if let Some((a_s, b)) = pollard_rho::rho(&n, prefs.verbosity) {
+                #[cfg(yamaquasi_verif)] vfac::split2(&n, &a_s, &b, "rho");
                 for a in a_s {
                     factor_impl(a, alg, prefs, factors, tpool);
                 }
@@ -417,14 +443,17 @@ fn factor_impl(
             }
         }
         Algo::Squfof => {
+            #[cfg(yamaquasi_verif)] vfac::alg(&n, "squfof");
             assert!(n.bits() <= 64);
             if let Some((a, b)) = squfof::squfof(n.low_u64()) {
+                #[cfg(yamaquasi_verif)] vfac::split(&n, &[a.into(), b.into()], "squfof");
                 factor_impl(a.into(), alg, prefs, factors, tpool);
                 factor_impl(b.into(), alg, prefs, factors, tpool);
             } else {
                 if prefs.verbose(Verbosity::Info) {
                     eprintln!("SQUFOF failed");
                 }
+                #[cfg(yamaquasi_verif)] vfac::push(&n, "fail");
                 factors.push(n);
             }
             return;
@@ -433,6 +462,7 @@ fn factor_impl(
         Algo::Qs | Algo::Mpqs | Algo::Siqs => {}
     }
     if prefs.abort() {
+        #[cfg(yamaquasi_verif)] vfac::push(&n, "abort");
         factors.push(n);
         return;
     }
@@ -441,6 +471,7 @@ fn factor_impl(
     if prefs.verbose(Verbosity::Info) {
         eprintln!("Selected multiplier {k} (score {score:.2}/10)");
     }
+    #[cfg(yamaquasi_verif)] vfac::alg(&n, "qs");
     let divs = match alg_real {
         Algo::Qs => Ok(qsieve::qsieve(n, k, prefs, tpool)),
         Algo::Mpqs => Ok(mpqs::mpqs(n, k, prefs, tpool)),
@@ -449,8 +480,10 @@ fn factor_impl(
     };
     let divs = match divs {
         Ok(divs) => {
+            #[cfg(yamaquasi_verif)] vfac::divs(&n, &divs);
             if divs.len() == 0 {
                 // Failure or interrupted.
+                #[cfg(yamaquasi_verif)] vfac::push(&n, "fail");
                 factors.push(n);
                 return;
             } else {
@@ -458,6 +491,7 @@ fn factor_impl(
             }
         }
         Err(UnexpectedFactor(d)) => {
+            #[cfg(yamaquasi_verif)] vfac::split(&n, &[d.into(), n / Uint::from(d)], "unexpected");
             factor_impl(d.into(), alg, prefs, factors, tpool);
             factor_impl(n / Uint::from(d), alg, prefs, factors, tpool);
             return;
@@ -493,11 +527,13 @@ fn factor_impl(
             residue /= gcd;
         }
     }
+    #[cfg(yamaquasi_verif)] vfac::split(&n, &facs, "divs");
     for f in facs {
         if f == n {
             if prefs.verbose(Verbosity::Info) {
                 eprintln!("Factorization failure");
             }
+            #[cfg(yamaquasi_verif)] vfac::push(&f, "fail");
             factors.push(f);
         } else if !pseudoprime(f) {
             if prefs.verbose(Verbosity::Info) {
@@ -505,6 +541,7 @@ fn factor_impl(
             }
             factor_impl(f, alg, prefs, factors, tpool);
         } else {
+            #[cfg(yamaquasi_verif)] vfac::push(&f, "prime");
             factors.push(f);
         }
     }
@@ -894,4 +931,41 @@ fn test_pseudoprime() {
     assert!(isprime64(9938261980284378737));
     // Some composite number
     assert!(!isprime64(11775166524998067797));
+}
+
+/// Verification events of the factoring strategy (cfg(yamaquasi_verif) only): which branch is taken,
+/// every split of a number into parts and every factor pushed.  Numbers are decimal strings.
+#[cfg(yamaquasi_verif)]
+mod vfac {
+    use super::{Algo, Uint};
+    fn list(v: &[Uint]) -> String {
+        let v: Vec<String> = v.iter().map(|x| format!("\"{}\"", x)).collect();
+        format!("[{}]", v.join(","))
+    }
+    pub fn small(p: u64) {
+        crate::verif::ev(|| format!("\"op\":\"f_small\",\"p\":{}", p));
+    }
+    pub fn num(op: &str, n: &Uint, alg: Algo) {
+        crate::verif::ev(|| format!("\"op\":\"{}\",\"n\":\"{}\",\"alg\":\"{:?}\"", op, n, alg));
+    }
+    pub fn pp(n: &Uint, p: &Uint, k: u32) {
+        crate::verif::ev(|| format!("\"op\":\"fi_pp\",\"n\":\"{}\",\"p\":\"{}\",\"k\":{}", n, p, k));
+    }
+    pub fn push(n: &Uint, why: &str) {
+        crate::verif::ev(|| format!("\"op\":\"fi_push\",\"n\":\"{}\",\"why\":\"{}\"", n, why));
+    }
+    pub fn alg(n: &Uint, name: &str) {
+        crate::verif::ev(|| format!("\"op\":\"fi_alg\",\"n\":\"{}\",\"name\":\"{}\"", n, name));
+    }
+    pub fn split(n: &Uint, parts: &[Uint], by: &str) {
+        crate::verif::ev(|| format!("\"op\":\"fi_split\",\"n\":\"{}\",\"parts\":{},\"by\":\"{}\"", n, list(parts), by));
+    }
+    pub fn split2(n: &Uint, a_s: &[Uint], b: &Uint, by: &str) {
+        let mut v = a_s.to_vec();
+        v.push(*b);
+        split(n, &v, by)
+    }
+    pub fn divs(n: &Uint, divs: &[Uint]) {
+        crate::verif::ev(|| format!("\"op\":\"fi_divs\",\"n\":\"{}\",\"divs\":{}", n, list(divs)));
+    }
 }
